@@ -1,1 +1,805 @@
-fn main() { println!("MACHINERY-ERROR check not built yet"); std::process::exit(2); }
+//! C06 — kernel matrices hold the kernel function; hierarchical clustering partitions.
+//!
+//! Exhaustive sweep (DESIGN.md §4 C06): every point set of the enumerated families x every kernel
+//! method of the grid x {f64, f32} x Dense and Sparse(k) for every 0 < k < n with each of the three
+//! neighbour indices x owned kernel and view, compared with a reference kernel function and a
+//! brute-force neighbour ranking; and, for every Gaussian f64 kernel so built, all 7 linkage
+//! methods x every cluster count 1..n+1 x thresholds exactly at / midway between the linkage
+//! dissimilarities, compared with a tie-exploring textbook agglomeration (`linkref`).
+
+mod linkref;
+
+use linfa::traits::Transformer;
+use linfa::Float;
+use linfa_hierarchical::{HierarchicalCluster, Method};
+use linfa_kernel::{Kernel, KernelInner, KernelMethod, KernelType};
+use linfa_nn::CommonNearestNeighbour;
+use linkref::{Link, Stop};
+use lvmc_core::enumerate as en;
+use lvmc_core::refmath;
+use lvmc_core::{close, guarded, json, par_sweep, Ctx, Level, Value, Violation};
+use ndarray::Array2;
+use serde::{Deserialize, Serialize};
+use std::collections::BTreeMap;
+
+#[derive(Clone, Debug, Serialize, Deserialize)]
+struct Case {
+    family: String,
+    points: Vec<Vec<f64>>,
+    dim: usize,
+    float: String,  // "f64" | "f32"
+    kernel: String, // "linear" | "gaussian" | "poly"
+    p1: f64,        // gaussian: eps; poly: constant
+    p2: f64,        // poly: degree (integer valued)
+}
+
+const KINDS: [(&str, CommonNearestNeighbour); 3] = [
+    ("linear", CommonNearestNeighbour::LinearSearch),
+    ("kdtree", CommonNearestNeighbour::KdTree),
+    ("balltree", CommonNearestNeighbour::BallTree),
+];
+
+type Counters = BTreeMap<&'static str, u64>;
+fn bump(c: &mut Counters, k: &'static str, n: u64) {
+    *c.entry(k).or_insert(0) += n;
+}
+
+fn to_f64<F: Float>(x: F) -> f64 {
+    x.to_f64().unwrap()
+}
+
+/// Reference kernel function (plain f64; integer powers by repeated multiplication).
+fn kref(kernel: &str, p1: f64, p2: f64, a: &[f64], b: &[f64]) -> f64 {
+    match kernel {
+        "linear" => refmath::dot(a, b),
+        "gaussian" => (-refmath::sqdist(a, b) / p1).exp(),
+        "poly" => {
+            let base = refmath::dot(a, b) + p1;
+            let mut r = 1.0;
+            for _ in 0..(p2 as usize) {
+                r *= base;
+            }
+            r
+        }
+        _ => panic!("unknown kernel"),
+    }
+}
+
+struct Tol {
+    rel: f64,     // kernel values / sums / products
+    psd: f64,     // most negative eigenvalue accepted
+    rank_rel: f64, // neighbour-ranking tie margin, relative to the largest squared distance
+}
+
+/// Dense image of the kernel's inner matrix read from the raw storage (no `Inner` method used).
+struct Image {
+    m: Vec<Vec<f64>>,
+    stored: Vec<Vec<bool>>,
+    problem: Option<String>,
+}
+
+fn image<F: Float>(k: &Kernel<F>) -> Image {
+    match &k.inner {
+        KernelInner::Dense(a) => {
+            let (r, c) = a.dim();
+            let m = (0..r).map(|i| (0..c).map(|j| to_f64(a[(i, j)])).collect()).collect();
+            let problem = if r != c { Some(format!("dense inner is {}x{}", r, c)) } else { None };
+            Image { m, stored: vec![vec![true; c]; r], problem }
+        }
+        KernelInner::Sparse(cs) => {
+            let (r, c) = (cs.rows(), cs.cols());
+            let mut m = vec![vec![0.0; c]; r];
+            let mut stored = vec![vec![false; c]; r];
+            let mut problem = None;
+            let ip: Vec<usize> = cs.indptr().to_proper().to_vec();
+            let ind = cs.indices();
+            let dat = cs.data();
+            let outer = if cs.is_csr() { r } else { c };
+            if r != c {
+                problem = Some(format!("sparse inner is {}x{}", r, c));
+            }
+            if ip.len() != outer + 1 || ind.len() != dat.len() || ip.last().cloned().unwrap_or(0) != ind.len() {
+                problem = Some(format!("inconsistent CSR arrays: indptr {:?}, {} indices, {} values", ip, ind.len(), dat.len()));
+                return Image { m, stored, problem };
+            }
+            for o in 0..outer {
+                let mut last: Option<usize> = None;
+                for p in ip[o]..ip[o + 1] {
+                    let inner = ind[p];
+                    if inner >= if cs.is_csr() { c } else { r } {
+                        problem = Some(format!("index {} out of range in outer {}", inner, o));
+                        continue;
+                    }
+                    if let Some(l) = last {
+                        if inner <= l {
+                            problem = Some(format!("indices of outer {} not strictly increasing", o));
+                        }
+                    }
+                    last = Some(inner);
+                    let (i, j) = if cs.is_csr() { (o, inner) } else { (inner, o) };
+                    m[i][j] = to_f64(dat[p]);
+                    stored[i][j] = true;
+                }
+            }
+            Image { m, stored, problem }
+        }
+    }
+}
+
+/// The six views a kernel reports about its matrix, as plain vectors.
+#[derive(PartialEq, Debug)]
+struct Views {
+    size: usize,
+    sum: Vec<f64>,
+    columns: Vec<Vec<f64>>,
+    diagonal: Vec<f64>,
+    upper: Vec<f64>,
+    dots: Vec<Vec<Vec<f64>>>,
+}
+
+fn rhs_menu(n: usize) -> Vec<Vec<Vec<f64>>> {
+    vec![
+        (0..n).map(|i| (0..n).map(|j| if i == j { 1.0 } else { 0.0 }).collect()).collect(), // identity
+        (0..n).map(|i| vec![(i as f64 + 1.0) * 0.75, 2.0 - (i as f64) * (i as f64) * 0.5]).collect(), // n x 2
+        (0..n).map(|i| vec![if i % 2 == 0 { 1.0 } else { -1.5 }]).collect(), // n x 1
+    ]
+}
+
+macro_rules! views_of {
+    ($k:expr, $F:ty, $n:expr) => {{
+        let k = &$k;
+        let size = k.size();
+        let sum: Vec<f64> = k.sum().iter().map(|&x| to_f64(x)).collect();
+        let columns: Vec<Vec<f64>> = (0..size.min($n)).map(|i| k.column(i).iter().map(|&x| to_f64(x)).collect()).collect();
+        let diagonal: Vec<f64> = k.diagonal().iter().map(|&x| to_f64(x)).collect();
+        let upper: Vec<f64> = k.to_upper_triangle().iter().map(|&x| to_f64(x)).collect();
+        let mut dots = Vec::new();
+        for rhs in rhs_menu($n) {
+            let cols = rhs[0].len();
+            let r: Array2<$F> = Array2::from_shape_fn(($n, cols), |(i, j)| <$F as Float>::cast(rhs[i][j]));
+            let p = k.dot(&r.view());
+            let (pr, pc) = p.dim();
+            dots.push((0..pr).map(|i| (0..pc).map(|j| to_f64(p[(i, j)])).collect::<Vec<f64>>()).collect::<Vec<_>>());
+        }
+        Views { size, sum, columns, diagonal, upper, dots }
+    }};
+}
+
+fn check_views(who: &str, v: &Views, img: &Image, n: usize, tol: &Tol, f32_rhs: bool, viols: &mut Vec<Violation>, cj: &dyn Fn(Value) -> Value, at: &Value) {
+    let mut push = |op: &str, what: String| {
+        let mut a = at.clone();
+        a.as_object_mut().unwrap().insert("op".into(), json!(op));
+        a.as_object_mut().unwrap().insert("form".into(), json!(who));
+        viols.push(Violation::new(format!("{}.{}.mismatch", who, op), what, cj(a)));
+    };
+    let m = &img.m;
+    if v.size != n {
+        push("size", format!("size() = {} for a kernel of {} records", v.size, n));
+        return;
+    }
+    let scale = m.iter().flatten().fold(0.0f64, |s, x| s.max(x.abs())).max(1e-300);
+    // row sums
+    let want: Vec<f64> = m.iter().map(|r| r.iter().sum()).collect();
+    if v.sum.len() != n || v.sum.iter().zip(&want).any(|(a, b)| !close(*a, *b, tol.rel, tol.rel * scale * n as f64)) {
+        push("sum", format!("sum() = {:?} but the row sums of the stored matrix are {:?}", v.sum, want));
+    }
+    // columns (copies: exact)
+    for i in 0..n {
+        let want: Vec<f64> = (0..n).map(|j| m[j][i]).collect();
+        if v.columns[i] != want {
+            push("column", format!("column({}) = {:?} but the stored matrix has {:?}", i, v.columns[i], want));
+            break;
+        }
+    }
+    let want: Vec<f64> = (0..n).map(|i| m[i][i]).collect();
+    if v.diagonal != want {
+        push("diagonal", format!("diagonal() = {:?} but the stored matrix has {:?}", v.diagonal, want));
+    }
+    let mut want = Vec::new();
+    for i in 0..n {
+        for j in i + 1..n {
+            want.push(m[i][j]);
+        }
+    }
+    if v.upper != want {
+        push("upper_triangle", format!("to_upper_triangle() = {:?} but the stored matrix has {:?} (row-major, above the diagonal)", v.upper, want));
+    }
+    for (r, rhs) in rhs_menu(n).iter().enumerate() {
+        let rhs: Vec<Vec<f64>> = if f32_rhs { rhs.iter().map(|row| row.iter().map(|&x| x as f32 as f64).collect()).collect() } else { rhs.clone() };
+        let want = refmath::matmul(m, &rhs);
+        let rscale = rhs.iter().flatten().fold(0.0f64, |s, x| s.max(x.abs()));
+        let got = &v.dots[r];
+        let ok = got.len() == want.len()
+            && got.iter().zip(&want).all(|(a, b)| a.len() == b.len() && a.iter().zip(b).all(|(x, y)| close(*x, *y, tol.rel, tol.rel * scale * rscale * n as f64)));
+        if !ok {
+            push("dot", format!("dot(rhs #{}) = {:?} but stored matrix x rhs = {:?}", r, got, want));
+            break;
+        }
+    }
+}
+
+fn run_case(case: &Case, viols: &mut Vec<Violation>) -> Counters {
+    match case.float.as_str() {
+        "f64" => run_typed::<f64>(case, viols),
+        "f32" => run_typed::<f32>(case, viols),
+        _ => panic!("bad float"),
+    }
+}
+
+fn method_of<F: Float>(case: &Case) -> KernelMethod<F> {
+    match case.kernel.as_str() {
+        "linear" => KernelMethod::Linear,
+        "gaussian" => KernelMethod::Gaussian(F::cast(case.p1)),
+        "poly" => KernelMethod::Polynomial(F::cast(case.p1), F::cast(case.p2)),
+        _ => panic!("bad kernel"),
+    }
+}
+
+fn run_typed<F: Float>(case: &Case, viols: &mut Vec<Violation>) -> Counters {
+    let mut cnt = Counters::new();
+    let n = case.points.len();
+    let d = case.dim;
+    let is32 = case.float == "f32";
+    let tol = if is32 { Tol { rel: 3e-5, psd: -1e-4, rank_rel: 1e-5 } } else { Tol { rel: 1e-12, psd: -1e-10, rank_rel: 1e-12 } };
+    let x: Array2<F> = Array2::from_shape_fn((n, d), |(i, j)| F::cast(case.points[i][j]));
+    let pts: Vec<Vec<f64>> = (0..n).map(|i| (0..d).map(|j| to_f64(x[(i, j)])).collect()).collect();
+    let p1 = to_f64(F::cast(case.p1));
+    let p2 = to_f64(F::cast(case.p2));
+    let cj = |at: Value| -> Value {
+        let mut v = serde_json::to_value(case).unwrap();
+        v.as_object_mut().unwrap().insert("at".into(), at);
+        v
+    };
+    let kr: Vec<Vec<f64>> = (0..n).map(|i| (0..n).map(|j| kref(&case.kernel, p1, p2, &pts[i], &pts[j])).collect()).collect();
+    let d2: Vec<Vec<f64>> = (0..n).map(|i| (0..n).map(|j| refmath::sqdist(&pts[i], &pts[j])).collect()).collect();
+    let d2max = d2.iter().flatten().cloned().fold(0.0, f64::max).max(1e-300);
+    let rtol = tol.rank_rel * d2max;
+    let kscale = kr.iter().flatten().fold(0.0f64, |s, v| s.max(v.abs())).max(1e-300);
+
+    // kernel kinds: dense, and sparse(k) for every 0<k<n with each neighbour index
+    let mut kinds: Vec<(KernelType, &str, CommonNearestNeighbour)> = vec![(KernelType::Dense, "-", CommonNearestNeighbour::KdTree)];
+    for k in 1..n {
+        for (name, nn) in KINDS.iter() {
+            kinds.push((KernelType::Sparse(k), name, nn.clone()));
+        }
+    }
+    let mut clustered: Vec<Vec<Vec<f64>>> = Vec::new(); // matrices already handed to the clustering sweep
+    for (kind, nn_name, nn) in kinds {
+        let (kname, kk) = match kind {
+            KernelType::Dense => ("dense", 0usize),
+            KernelType::Sparse(k) => ("sparse", k),
+        };
+        let at = json!({"kind": kname, "k": kk, "nn": nn_name});
+        let params = Kernel::<F>::params_with_nn(nn.clone()).kind(kind.clone()).method(method_of::<F>(case));
+        bump(&mut cnt, "evals", 1);
+        let kernel: Kernel<F> = match guarded(|| params.transform(x.view())) {
+            Ok(k) => k,
+            Err(p) => {
+                viols.push(Violation::new(format!("{}.build.panic", kname), format!("building the kernel (n={}, k={}) panicked: {}", n, kk, p), cj(at)));
+                continue;
+            }
+        };
+        let img = image(&kernel);
+        if let Some(p) = &img.problem {
+            viols.push(Violation::new(format!("{}.structure.invalid", kname), p.clone(), cj(at.clone())));
+            continue;
+        }
+        if img.m.len() != n {
+            viols.push(Violation::new(format!("{}.structure.wrong_shape", kname), format!("inner matrix has {} rows for {} records", img.m.len(), n), cj(at.clone())));
+            continue;
+        }
+        // ---- stored values == kernel function; symmetric; Gaussian: unit diagonal, PSD ----
+        let mut bad_value = false;
+        'outer: for i in 0..n {
+            for j in 0..n {
+                // Gaussian values span many magnitudes: purely relative; Linear / Polynomial values are
+                // sums of products (cancellation): relative to the largest entry of the matrix
+                let abs = if case.kernel == "gaussian" { 0.0 } else { tol.rel * kscale };
+                if img.stored[i][j] && !close(img.m[i][j], kr[i][j], tol.rel, abs) {
+                    viols.push(Violation::new(
+                        format!("{}.entry.wrong_value", kname),
+                        format!("entry ({},{}) = {:e} but {}({:?},{:?}) = {:e}", i, j, img.m[i][j], case.kernel, pts[i], pts[j], kr[i][j]),
+                        cj(at.clone()),
+                    ));
+                    bad_value = true;
+                    break 'outer;
+                }
+            }
+        }
+        'sym: for i in 0..n {
+            for j in i + 1..n {
+                if img.stored[i][j] != img.stored[j][i] {
+                    viols.push(Violation::new(
+                        "sparse.pattern.not_symmetric",
+                        format!("cell ({},{}) stored = {} but cell ({},{}) stored = {}", i, j, img.stored[i][j], j, i, img.stored[j][i]),
+                        cj(at.clone()),
+                    ));
+                    break 'sym;
+                }
+                if !close(img.m[i][j], img.m[j][i], tol.rel, 0.0) {
+                    viols.push(Violation::new(format!("{}.not_symmetric", kname), format!("K[{},{}] = {:e} but K[{},{}] = {:e}", i, j, img.m[i][j], j, i, img.m[j][i]), cj(at.clone())));
+                    break 'sym;
+                }
+            }
+        }
+        if let Some(i) = (0..n).find(|&i| !img.stored[i][i]) {
+            viols.push(Violation::new("sparse.pattern.diagonal_missing", format!("diagonal cell ({},{}) is not stored", i, i), cj(at.clone())));
+        }
+        if case.kernel == "gaussian" {
+            if let Some(i) = (0..n).find(|&i| img.m[i][i] != 1.0) {
+                viols.push(Violation::new("gaussian.diagonal_not_one", format!("K[{},{}] = {:e}", i, i, img.m[i][i]), cj(at.clone())));
+            }
+            if kname == "dense" && !bad_value {
+                let sym: Vec<Vec<f64>> = (0..n).map(|i| (0..n).map(|j| 0.5 * (img.m[i][j] + img.m[j][i])).collect()).collect();
+                let (vals, _) = refmath::jacobi_eig(&sym);
+                bump(&mut cnt, "psd_checked", 1);
+                if let Some(&l) = vals.last() {
+                    if l < tol.psd {
+                        viols.push(Violation::new("gaussian.not_psd", format!("smallest eigenvalue {:e} of the Gaussian kernel matrix", l), cj(at.clone())));
+                    }
+                }
+            }
+        }
+        // ---- sparse pattern vs brute-force neighbour ranking ----
+        let mut nontrivial = n >= 2;
+        if kname == "sparse" {
+            let k = kk;
+            // must[i][j]: j is among the k nearest of i under every admissible tie-break;
+            // may[i][j]: under at least one
+            let mut lower = vec![vec![false; n]; n];
+            let mut upper = vec![vec![false; n]; n];
+            for i in 0..n {
+                for j in 0..n {
+                    if i == j {
+                        lower[i][j] = true;
+                        upper[i][j] = true;
+                        continue;
+                    }
+                    let near_or_closer = (0..n).filter(|&l| l != i && l != j && d2[i][l] <= d2[i][j] + rtol).count();
+                    let strictly_closer = (0..n).filter(|&l| l != i && l != j && d2[i][l] < d2[i][j] - rtol).count();
+                    if near_or_closer < k {
+                        lower[i][j] = true;
+                        lower[j][i] = true;
+                    }
+                    if strictly_closer < k {
+                        upper[i][j] = true;
+                        upper[j][i] = true;
+                    }
+                }
+            }
+            let exact = lower == upper;
+            bump(&mut cnt, if exact { "sparse_patterns_exact" } else { "sparse_patterns_tied_bounds_only" }, 1);
+            if !exact {
+                bump(&mut cnt, "indeterminate", 1);
+            }
+            let full = img.stored.iter().flatten().all(|&b| b);
+            nontrivial = exact && !lower.iter().flatten().all(|&b| b);
+            if full {
+                bump(&mut cnt, "sparse_patterns_full", 1);
+            }
+            let mut done = false;
+            for i in 0..n {
+                for j in 0..n {
+                    if done {
+                        break;
+                    }
+                    if lower[i][j] && !img.stored[i][j] {
+                        let dir = if (0..n).filter(|&l| l != i && l != j && d2[i][l] <= d2[i][j] + rtol).count() < k { "row's own neighbour" } else { "transposed (other point's neighbour)" };
+                        viols.push(Violation::new(
+                            "sparse.pattern.missing_neighbour_pair",
+                            format!("k={} {}: pair ({},{}) is not stored although one point is among the other's {} nearest ({}); squared distances from {}: {:?}", k, nn_name, i, j, k, dir, i, d2[i]),
+                            cj(at.clone()),
+                        ));
+                        done = true;
+                    }
+                    if img.stored[i][j] && !upper[i][j] {
+                        viols.push(Violation::new(
+                            "sparse.pattern.extra_pair",
+                            format!("k={} {}: pair ({},{}) is stored although neither point is among the other's {} nearest; squared distances from {}: {:?}, from {}: {:?}", k, nn_name, i, j, k, i, d2[i], j, d2[j]),
+                            cj(at.clone()),
+                        ));
+                        done = true;
+                    }
+                }
+            }
+            for i in 0..n {
+                let off = (0..n).filter(|&j| j != i && img.stored[i][j]).count();
+                if off < k {
+                    viols.push(Violation::new("sparse.pattern.row_has_fewer_than_k", format!("row {} stores {} off-diagonal cells, k = {}", i, off, k), cj(at.clone())));
+                    break;
+                }
+            }
+        }
+        if nontrivial {
+            bump(&mut cnt, "nontrivial", 1);
+        }
+        // ---- the views the kernel reports, owned and borrowed ----
+        let who_o = if kname == "dense" { "dense.owned" } else { "sparse.owned" };
+        let who_v = if kname == "dense" { "dense.view" } else { "sparse.view" };
+        match guarded(|| views_of!(kernel, F, n)) {
+            Ok(v) => check_views(who_o, &v, &img, n, &tol, is32, viols, &cj, &at),
+            Err(p) => viols.push(Violation::new(format!("{}.panic", who_o), format!("a reporting method panicked: {}", p), cj(at.clone()))),
+        }
+        match guarded(|| {
+            let view = kernel.view();
+            let v = views_of!(view, F, n);
+            let back = view.to_owned();
+            (v, back == kernel)
+        }) {
+            Ok((v, same)) => {
+                check_views(who_v, &v, &img, n, &tol, is32, viols, &cj, &at);
+                if !same {
+                    viols.push(Violation::new(format!("{}.to_owned.differs", who_v), "view().to_owned() != the kernel it was taken from".to_string(), cj(at.clone())));
+                }
+            }
+            Err(p) => viols.push(Violation::new(format!("{}.panic", who_v), format!("a reporting method panicked: {}", p), cj(at.clone()))),
+        }
+        bump(&mut cnt, "view_sets_checked", 2);
+        // documented panic: incompatible shapes in dot
+        let wrong: Array2<F> = Array2::zeros((n + 1, 1));
+        if guarded(|| kernel.dot(&wrong.view())).is_ok() {
+            viols.push(Violation::new(format!("{}.dot.incompatible_shape_no_panic", who_o), format!("dot with a {}x1 rhs on a kernel of size {} did not panic (documented panic)", n + 1, n), cj(at.clone())));
+        }
+
+        // ---- hierarchical clustering on this kernel ----
+        if case.kernel == "gaussian" && !is32 && !bad_value {
+            if clustered.iter().any(|m| *m == img.m) {
+                bump(&mut cnt, "clustering_skipped_same_matrix_as_other_index", 1);
+            } else {
+                clustered.push(img.m.clone());
+                cluster_sweep(case, &kernel, &img, &at, viols, &mut cnt);
+            }
+        }
+    }
+    // ---- documented panics: neighbour counts outside 0<k<n ----
+    if n >= 1 {
+        for (name, nn) in KINDS.iter() {
+            for k in [0usize, n, n + 1] {
+                bump(&mut cnt, "evals", 1);
+                bump(&mut cnt, "k_out_of_range_checked", 1);
+                let params = Kernel::<F>::params_with_nn(nn.clone()).kind(KernelType::Sparse(k)).method(method_of::<F>(case));
+                if guarded(|| params.transform(x.view())).is_ok() {
+                    viols.push(Violation::new(
+                        "sparse.k_out_of_range.accepted",
+                        format!("Sparse({}) on {} records with {} did not panic (documented: k must be between 1 and #records-1)", k, n, name),
+                        cj(json!({"kind": "sparse", "k": k, "nn": name, "op": "build_out_of_range"})),
+                    ));
+                }
+            }
+        }
+    }
+    cnt
+}
+
+fn kodama_method(l: Link) -> Method {
+    match l {
+        Link::Single => Method::Single,
+        Link::Complete => Method::Complete,
+        Link::Average => Method::Average,
+        Link::Weighted => Method::Weighted,
+        Link::Ward => Method::Ward,
+        Link::Centroid => Method::Centroid,
+        Link::Median => Method::Median,
+    }
+}
+
+/// Only called for f64 kernels (the reference is f64); generic so that it can sit inside `run_typed`.
+fn cluster_sweep<F: Float>(case: &Case, kernel: &Kernel<F>, img: &Image, at_kernel: &Value, viols: &mut Vec<Violation>, cnt: &mut Counters) {
+    let n = img.m.len();
+    // dissimilarity = -ln(max(K, 1e-6)), from the kernel's own (already verified) matrix
+    let floor = 1e-6f64;
+    let dis: Vec<Vec<f64>> = (0..n)
+        .map(|i| {
+            (0..n)
+                .map(|j| {
+                    if i == j {
+                        0.0
+                    } else {
+                        let x = img.m[i.min(j)][i.max(j)];
+                        let v = if x > floor { -x.ln() } else { -floor.ln() };
+                        if v == 0.0 {
+                            0.0
+                        } else {
+                            v
+                        }
+                    }
+                })
+                .collect()
+        })
+        .collect();
+    let mut inputs: Vec<f64> = Vec::new();
+    for i in 0..n {
+        for j in i + 1..n {
+            inputs.push(dis[i][j]);
+        }
+    }
+    let floored = (0..n).any(|i| (0..n).any(|j| i != j && img.m[i][j] <= floor));
+    if floored {
+        bump(cnt, "clustered_kernels_with_floored_similarities", 1);
+    }
+    bump(cnt, "clustered_kernels", 1);
+    for link in linkref::LINKS {
+        let cj = |extra: Value| -> Value {
+            let mut v = serde_json::to_value(case).unwrap();
+            let mut a = at_kernel.clone();
+            for (k, x) in extra.as_object().unwrap() {
+                a.as_object_mut().unwrap().insert(k.clone(), x.clone());
+            }
+            a.as_object_mut().unwrap().insert("linkage".into(), json!(link.name()));
+            v.as_object_mut().unwrap().insert("at".into(), a);
+            v
+        };
+        let run = |hc: HierarchicalCluster<F>, at: Value, viols: &mut Vec<Violation>| -> Option<Vec<usize>> {
+            match guarded(|| hc.transform(kernel.clone())) {
+                Ok(Ok(ds)) => {
+                    if ds.records() != kernel {
+                        viols.push(Violation::new("hierarchical.kernel_changed", "the kernel returned as records differs from the input kernel".to_string(), cj(at.clone())));
+                    }
+                    let t: Vec<usize> = ds.targets().clone();
+                    if t.len() != n {
+                        viols.push(Violation::new("hierarchical.labels.wrong_length", format!("{} labels for {} samples", t.len(), n), cj(at)));
+                        return None;
+                    }
+                    Some(t)
+                }
+                Ok(Err(e)) => {
+                    viols.push(Violation::new("hierarchical.unexpected_error", format!("valid parameters returned Err({})", e), cj(at)));
+                    None
+                }
+                Err(p) => {
+                    viols.push(Violation::new("hierarchical.panic", format!("transform panicked: {}", p), cj(at)));
+                    None
+                }
+            }
+        };
+        // ---------- NumClusters(c) ----------
+        for c in 1..=n + 1 {
+            bump(cnt, "evals", 1);
+            bump(cnt, "num_clusters_runs", 1);
+            if c > 1 && c < n {
+                bump(cnt, "nontrivial", 1);
+            }
+            let at = json!({"criterion": "num_clusters", "c": c});
+            let hc = HierarchicalCluster::<F>::default().with_method(kodama_method(link)).num_clusters(c);
+            let Some(lab) = run(hc, at.clone(), viols) else { continue };
+            let canon = linkref::canon_labels(&lab);
+            let count = canon.iter().max().map_or(0, |m| m + 1);
+            if count != c.min(n) {
+                viols.push(Violation::new(
+                    "hierarchical.num_clusters.wrong_count",
+                    format!("{} linkage, {} requested on {} samples: {} distinct labels {:?}, expected {}", link.name(), c, n, count, lab, c.min(n)),
+                    cj(at),
+                ));
+                continue;
+            }
+            let out = linkref::admissible(link, &dis, Stop::Count(c));
+            if out.degenerate || out.overflow {
+                bump(cnt, "reference_degenerate_skipped", 1);
+                bump(cnt, "indeterminate", 1);
+                continue;
+            }
+            bump(cnt, "num_clusters_partition_compared", 1);
+            if out.partitions.len() > 1 {
+                bump(cnt, "compared_against_tie_set", 1);
+            }
+            if !out.partitions.contains(&canon) {
+                viols.push(Violation::new(
+                    "hierarchical.num_clusters.partition_not_agglomerative",
+                    format!(
+                        "{} linkage, {} clusters: labels {:?} are not a partition the agglomeration of the dissimilarities can produce (admissible: {:?}); dissimilarities {:?}",
+                        link.name(), c, lab, out.partitions, inputs
+                    ),
+                    cj(at),
+                ));
+            }
+        }
+        // ---------- Distance(t) ----------
+        let mut hs: Vec<f64> = inputs.clone();
+        hs.extend(linkref::canonical_heights(link, &dis));
+        hs.retain(|h| h.is_finite() && *h >= 0.0);
+        hs.sort_by(|a, b| a.partial_cmp(b).unwrap());
+        let mut distinct: Vec<f64> = Vec::new();
+        for h in hs {
+            if distinct.last().map_or(true, |&l| h - l > 1e-7 * l.abs().max(1.0)) {
+                distinct.push(h);
+            }
+        }
+        let mut thresholds: Vec<(f64, &'static str)> = Vec::new();
+        for &h in &distinct {
+            thresholds.push((h, "exactly_at"));
+        }
+        for w in distinct.windows(2) {
+            thresholds.push(((w[0] + w[1]) / 2.0, "midpoint"));
+        }
+        if let Some(&f) = distinct.first() {
+            if f > 0.0 {
+                thresholds.push((f / 2.0, "below_min"));
+                thresholds.push((0.0, "zero"));
+            }
+        }
+        thresholds.push((distinct.last().cloned().unwrap_or(0.0) + 1.0, "above_max"));
+        for (t, tclass) in thresholds {
+            bump(cnt, "evals", 1);
+            bump(cnt, "threshold_runs", 1);
+            let at = json!({"criterion": "distance", "t": t, "t_class": tclass});
+            let hc = HierarchicalCluster::<F>::default().with_method(kodama_method(link)).max_distance(F::cast(t));
+            let Some(lab) = run(hc, at.clone(), viols) else { continue };
+            let canon = linkref::canon_labels(&lab);
+            let count = canon.iter().max().map_or(0, |m| m + 1);
+            if count > 1 && count < n {
+                bump(cnt, "nontrivial", 1);
+            }
+            if link == Link::Single {
+                // the statement's own characterisation, independent of any merge order
+                let comp = linkref::components_below(&dis, t);
+                bump(cnt, "single_linkage_component_checks", 1);
+                if comp != canon {
+                    let incl = {
+                        // closed-form alternative: components of {d <= t}
+                        let up = t + t.abs().max(1e-300) * f64::EPSILON;
+                        linkref::components_below(&dis, up) == canon && tclass == "exactly_at"
+                    };
+                    let sig = if incl { "hierarchical.threshold.merge_at_threshold_performed" } else { "hierarchical.threshold.single_not_components" };
+                    viols.push(Violation::new(
+                        sig,
+                        format!("single linkage, threshold {} ({}): labels {:?} but the connected components of {{d < t}} are {:?}; dissimilarities {:?}", t, tclass, lab, comp, inputs),
+                        cj(at.clone()),
+                    ));
+                    continue;
+                }
+            }
+            let out = linkref::admissible(link, &dis, Stop::Below { t, inclusive: false });
+            if out.degenerate || out.overflow {
+                bump(cnt, "reference_degenerate_skipped", 1);
+                bump(cnt, "indeterminate", 1);
+                continue;
+            }
+            if out.near_threshold {
+                bump(cnt, "threshold_within_rounding_of_computed_height", 1);
+                bump(cnt, "indeterminate", 1);
+                continue;
+            }
+            if !link.monotone() && out.inversion {
+                // "every merge below the threshold" is ambiguous when heights are not monotone
+                bump(cnt, "nonmonotone_dendrogram_skipped", 1);
+                bump(cnt, "indeterminate", 1);
+                continue;
+            }
+            bump(cnt, "threshold_partition_compared", 1);
+            if tclass == "exactly_at" {
+                bump(cnt, "threshold_exactly_at_compared", 1);
+            }
+            if out.partitions.len() > 1 {
+                bump(cnt, "compared_against_tie_set", 1);
+            }
+            if !out.partitions.contains(&canon) {
+                let alt = linkref::admissible(link, &dis, Stop::Below { t, inclusive: true });
+                let sig = if tclass == "exactly_at" && alt.partitions.contains(&canon) {
+                    "hierarchical.threshold.merge_at_threshold_performed"
+                } else {
+                    "hierarchical.threshold.wrong_partition"
+                };
+                viols.push(Violation::new(
+                    sig,
+                    format!(
+                        "{} linkage, threshold {} ({}): labels {:?} but performing every merge with dissimilarity < t gives {:?}; dissimilarities {:?}",
+                        link.name(), t, tclass, lab, out.partitions, inputs
+                    ),
+                    cj(at),
+                ));
+            }
+        }
+    }
+}
+
+fn replay_value(v: &Value) -> Vec<Violation> {
+    let c: Case = match serde_json::from_value(v.clone()) {
+        Ok(c) => c,
+        Err(e) => {
+            println!("MACHINERY-ERROR replay case does not parse: {}", e);
+            std::process::exit(2);
+        }
+    };
+    let mut out = Vec::new();
+    run_case(&c, &mut out);
+    if let Some(at) = v.get("at") {
+        out.retain(|x| x.case.get("at") == Some(at));
+    }
+    out
+}
+
+fn main() {
+    let ctx = Ctx::new("C06", Level::Exploration);
+    ctx.maybe_replay(&replay_value);
+    ctx.set_rule(
+        "cases = (point set, float type, kernel method); point sets: every subset of 2..5 (quick) / 2..6 (thorough) points of the 3x3 lattice, \
+         the generic-position image of each (constant jitter table), every multiset of 1..5 points of {0..4} on a line (duplicates up to 3x), \
+         every subset of 2..5 (quick) / 2..6 (thorough) of a pool of 7 three-feature points; kernel methods Linear, Gaussian(0.5), Gaussian(2), Polynomial(c in {0,1}, d in {1,2,3}); f64 and f32. \
+         Per case: Dense and Sparse(k) for every 0<k<n with LinearSearch / KdTree / BallTree, owned kernel and view: every stored cell vs the reference kernel function, \
+         pattern vs the brute-force k-nearest ranking, size/sum/column/diagonal/to_upper_triangle/dot(3 right-hand sides) vs the stored matrix, k in {0,n,n+1} must panic. \
+         Per Gaussian f64 kernel with a distinct matrix: 7 linkage methods x NumClusters(1..n+1) x Distance(t) with t exactly at every distinct input / merge dissimilarity, at every midpoint, below the minimum, 0 and above the maximum. \
+         evaluations = kernels built + clustering runs; non-trivial = kernels on n>=2 records (sparse: exact pattern with at least one absent pair), NumClusters with 1<c<n, thresholds that give 1 < #clusters < n; \
+         distinct by construction of the enumerators.",
+    );
+    ctx.assume("kernel functions as pinned by the crate's tests: Gaussian(eps) = exp(-|x-y|^2/eps), Polynomial(c,d) = (<x,y>+c)^d, Linear = <x,y>; reference in f64 from the coordinates / parameters as rounded to the subject's float type");
+    ctx.assume("stored kernel values vs reference: relative 1e-12 (f64) / 3e-5 (f32); sums and products vs the stored matrix: same tolerances scaled by n x magnitude; column / diagonal / upper triangle are copies and compared exactly; Gaussian diagonal == 1 exactly; PSD: smallest Jacobi eigenvalue >= -1e-10 (f64) / -1e-4 (f32), dense Gaussian kernels only");
+    ctx.assume("sparse pattern: pair (i,j) must be stored when j is among i's k nearest under every tie-break and may be stored when under some tie-break (squared-distance margin 1e-12 (f64) / 1e-5 (f32) x largest squared distance); where the two bounds coincide (generic position) the pattern is compared exactly, for each of the three indices; otherwise the case is also counted as indeterminate (tie-robust bounds only)");
+    ctx.assume("clustering oracle input = the kernel's own stored matrix (verified against the kernel function in the same case), dissimilarity d = -ln(max(K,1e-6)) computed with the same f64 operations; trusted base: the Lance-Williams formulas of linkref.rs with the SciPy/fastcluster convention (Ward/Centroid/Median on squared input, height = sqrt)");
+    ctx.assume("ties: the reference follows every pair within relative 1e-9 of the minimum, the observed partition must be one of the resulting partitions; merge heights produced by arithmetic that fall within relative 1e-9 of a threshold make the run indeterminate; heights that are input entries (Single, Complete, any merge of two singletons) are compared exactly, also at the threshold itself (merge iff d < t, as the statement says)");
+    ctx.assume("Centroid / Median: threshold runs whose reference dendrogram has an inversion or a negative / NaN Lance-Williams value are skipped as indeterminate (statement ambiguous there); count checks and NumClusters comparisons still apply unless the reference degenerates; NumClusters(0) is outside the domain (C04) and not run");
+
+    // ---------------- enumerate ----------------
+    let mut sets: Vec<(String, Vec<Vec<f64>>, usize)> = Vec::new();
+    let lat = en::lattice_points(2, 3);
+    let nmax = ctx.pick(5, 6);
+    for ss in en::subsets_upto(9, 2, nmax) {
+        let p: Vec<Vec<f64>> = ss.iter().map(|&i| lat[i].iter().map(|&v| v as f64).collect()).collect();
+        sets.push(("lattice3x3".into(), p, 2));
+        let g: Vec<Vec<f64>> = ss.iter().map(|&i| lat[i].iter().enumerate().map(|(j, &v)| v as f64 + en::jitter(i, j)).collect()).collect();
+        sets.push(("lattice3x3_generic".into(), g, 2));
+    }
+    for ms in en::multisets_upto(5, 1, 5, 3) {
+        sets.push(("line_multiset".into(), ms.iter().map(|&i| vec![i as f64]).collect(), 1));
+    }
+    let pool3: Vec<Vec<f64>> = vec![
+        vec![0.0, 0.0, 0.0],
+        vec![1.0, 0.0, 0.5],
+        vec![0.0, 1.5, 1.0],
+        vec![1.0, 1.0, 1.0],
+        vec![-0.5, 0.25, 2.0],
+        vec![0.3, -0.7, 0.9],
+        vec![2.0, 0.5, -0.25],
+    ];
+    for ss in en::subsets_upto(7, 2, nmax) {
+        sets.push(("three_features".into(), ss.iter().map(|&i| pool3[i].clone()).collect(), 3));
+    }
+    let mut methods: Vec<(&str, f64, f64)> = vec![("linear", 0.0, 0.0), ("gaussian", 0.5, 0.0), ("gaussian", 2.0, 0.0)];
+    for c in [0.0, 1.0] {
+        for d in [1.0, 2.0, 3.0] {
+            methods.push(("poly", c, d));
+        }
+    }
+    let mut cases: Vec<Case> = Vec::new();
+    for (fam, pts, d) in &sets {
+        for f in ["f64", "f32"] {
+            for (k, p1, p2) in &methods {
+                cases.push(Case { family: fam.clone(), points: pts.clone(), dim: *d, float: f.into(), kernel: k.to_string(), p1: *p1, p2: *p2 });
+            }
+        }
+    }
+    // heaviest first (clustering sweeps on the largest sets), so the parallel sweep balances
+    cases.sort_by_key(|c| std::cmp::Reverse((c.kernel == "gaussian" && c.float == "f64") as usize * 100 + c.points.len()));
+    ctx.extra("point_sets", json!(sets.len()));
+    ctx.extra("cases_enumerated", json!(cases.len()));
+
+    let totals: std::sync::Mutex<Counters> = std::sync::Mutex::new(Counters::new());
+    let done = std::sync::atomic::AtomicU64::new(0);
+    par_sweep(&ctx, "kernel + clustering sweep", &cases, |c| {
+        let mut v = Vec::new();
+        let cnt = run_case(c, &mut v);
+        ctx.evals(*cnt.get("evals").unwrap_or(&0), *cnt.get("nontrivial").unwrap_or(&0));
+        for _ in 0..*cnt.get("indeterminate").unwrap_or(&0) {
+            ctx.indeterminate();
+        }
+        {
+            let mut t = totals.lock().unwrap();
+            for (k, n) in cnt {
+                if k != "evals" && k != "nontrivial" && k != "indeterminate" {
+                    *t.entry(k).or_insert(0) += n;
+                }
+            }
+        }
+        ctx.violations(v);
+        done.fetch_add(1, std::sync::atomic::Ordering::Relaxed);
+        ctx.sample(|| json!({"family": c.family, "points": c.points, "float": c.float, "kernel": c.kernel, "p1": c.p1, "p2": c.p2}));
+    });
+    for (k, n) in totals.lock().unwrap().iter() {
+        ctx.extra(k, json!(n));
+    }
+    let completed = done.load(std::sync::atomic::Ordering::Relaxed);
+    ctx.extra("cases_completed", json!(completed));
+    if completed != cases.len() as u64 {
+        ctx.capped(&format!("{} of {} cases completed", completed, cases.len()));
+    }
+    ctx.finish(&replay_value);
+}
